@@ -6,7 +6,7 @@ import ast
 from ..callgraph import CallGraph
 from ..cells import Model, amino_cells, ff_status
 from ..core import AnalysisError, U, calls_in, guards_of, iter_stmts, parent, walk_no_defs
-from ..tables import AMINO, Tables
+from ..tables import AMINO, NUCLEIC, Tables
 
 FORMAT_OPTS = ["whitespace", "keep_chain", "include_header", "pdb_output", "apbs_input", "ffout"]
 MODEL_ATTRS = {"x", "y", "z", "ffcharge", "radius", "atoms", "map", "residues", "chains", "bonds", "reference", "patches",
@@ -334,27 +334,39 @@ def check(prog, rep):
                           if isinstance(n, ast.Attribute) and n.attr == opt and U(n.value) == "args" and isinstance(n.ctx, ast.Load)})
         r5.add(f"readers|{opt}", set(readers) <= {"main.py::check_options", "main.py::main_driver"}, f"args.{opt} read in {readers}",
                "pdb2pqr/main.py")
-        # inside assign_termini the parameter only appears in tests choosing the patch of res0 / the last polymer residue
+        # inside assign_termini the flag only chooses the patch variant of its own chain end: the function is evaluated on every chain
+        # shape with the flag off and on (the other flag both ways) and the patches of all residues are compared
+        from ..cells import Model
+        from .c02 import TERMINI_SHAPES, build_chain
         at = prog.func("biomolecule.py", "Biomolecule.assign_termini").node
+        model_ = Model(prog, Tables(prog.root))
         bad = []
-        n_use = 0
-        for n in walk_no_defs(at):
-            if isinstance(n, ast.Name) and n.id == opt and isinstance(n.ctx, ast.Load):
-                n_use += 1
-                owner = parent(n)
-                while owner is not None and not isinstance(owner, (ast.If, ast.stmt)):
-                    owner = parent(owner)
-                if not (isinstance(owner, ast.If) and n in list(ast.walk(owner.test))):
-                    bad.append(U(stmt_of(n))[:40])
-                    continue
-                patched = {U(c.args[1]) for c in calls_in(ast.Module(body=owner.body + owner.orelse, type_ignores=[]))
-                           if U(c.func) == "self.apply_patch"}
-                others = [U(c.func) for c in calls_in(ast.Module(body=owner.body + owner.orelse, type_ignores=[])) if U(c.func) != "self.apply_patch"]
-                want = {"res0"} if opt == "neutraln" else {"reslast", "resthis"}
-                if not patched <= want or others:
-                    bad.append(f"controls {sorted(patched)} {others}")
-        r5.add(f"assign_termini|{opt}", n_use > 0 and not bad,
-               f"{n_use} use(s), each the test of an if that only patches the chain-end residue" if not bad else f"other uses: {bad}",
+        n_cmp = 0
+        for sname, names in TERMINI_SHAPES.items():
+            for other in (False, True):
+                res = {}
+                for val in (False, True):
+                    chain = build_chain(prog, model_, names)
+                    kw = {"neutraln": val, "neutralc": other} if opt == "neutraln" else {"neutraln": other, "neutralc": val}
+                    model_.assign_termini(chain, dist=3.8, **kw)
+                    res[val] = [list(r["patches"]) for r in chain]
+                n_cmp += 1
+                polymer = [k for k, n in enumerate(names) if n not in ("WAT", "LIG", "NME?")]
+                own = (polymer[0] if opt == "neutraln" else polymer[-1]) if polymer else None
+                for k, (p0, p1) in enumerate(zip(res[False], res[True])):
+                    if k == own:
+                        fam = ("NTERM", "NEUTRAL-NTERM") if opt == "neutraln" else ("CTERM", "NEUTRAL-CTERM")
+                        rest0 = [p for p in p0 if p not in fam]
+                        rest1 = [p for p in p1 if p not in fam]
+                        if rest0 != rest1:
+                            bad.append(f"{sname}: residue {k} ({names[k]}) also changes {rest0} -> {rest1}")
+                        if fam[0] in p0 and fam[1] not in p1 and names[k] not in NUCLEIC:
+                            bad.append(f"{sname}: --{opt} leaves residue {k} ({names[k]}) with {p1} (still charged)")
+                    elif p0 != p1:
+                        bad.append(f"{sname}: --{opt} changes residue {k} ({names[k]}): {p0} -> {p1}")
+        r5.add(f"assign_termini|{opt}", n_cmp > 0 and not bad,
+               f"{n_cmp} chain shapes x other flag: the flag only switches the {'N' if opt == 'neutraln' else 'C'}-terminal patch of the chain's own "
+               f"{'first' if opt == 'neutraln' else 'last'} polymer residue to its neutral variant" if not bad else f"{bad[:4]}",
                f"pdb2pqr/biomolecule.py:{at.lineno} (Biomolecule.assign_termini)")
         st = prog.func("biomolecule.py", "Biomolecule.set_termini").node
         fw = [U(k.value) for c in calls_in(st) if U(c.func) == "self.assign_termini" for k in c.keywords if k.arg == opt]
